@@ -60,6 +60,13 @@ Blame ==
   @@ "blk.resp"   :> {"C02"}
   @@ "blk.await"  :> {"C04", "C02"}
   @@ "blk.join"   :> {"C17", "C02"}
+  @@ "blk.timer"  :> {"C10"}
+  @@ "exit.timer" :> {"C10"}
+  @@ "tf.state"   :> {"C10", "C07"}
+  @@ "tf.due"     :> {"C10"}
+  @@ "tf.k"       :> {"C10"}
+  @@ "adv.vt"     :> {"C10", "C11"}
+  @@ "adv.pending" :> {"C10", "C11"}
   @@ "blk.loop.closed" :> {"C05"}
   @@ "blk.loop.deq"    :> {"C02", "C05"}
   @@ "q.unresolved" :> {"C02"}
